@@ -30,6 +30,23 @@ Theorem C05_rotator_rowwise : forall (F : Type) (K : Ops F) (m1 m2 p k : nat) (V
 Proof. exact (@rot_transform_concat). Qed.
 Print Assumptions C05_rotator_rowwise.
 
+(* cross-set models (CPCCA, MCA, CCA, RDA and complex variants), one field: scaling with the fitted statistics, the PCA
+   projection, the whitening and the projection on the singular vectors (optionally normalised) are row-wise maps *)
+Theorem C05_cross_rowwise : forall (F : Type) (K : Ops F) (m1 m2 p q1 q2 k : nat) (fl : sflags) (ps : nat -> sparams)
+  (ops : list (guard * sop * sparam)) (Vp T Cm : mat) (nrm : option vec) (A B : mat),
+  cross_pipeline K (m1 + m2) p q1 q2 k fl ps ops Vp T Cm nrm (vstack K m1 m2 p A B) =
+  vstack K m1 m2 k (cross_pipeline K m1 p q1 q2 k fl ps ops Vp T Cm nrm A) (cross_pipeline K m2 p q1 q2 k fl ps ops Vp T Cm nrm B).
+Proof. exact (@cross_pipeline_concat). Qed.
+Print Assumptions C05_cross_rowwise.
+
+Theorem C05_cross_subset : forall (F : Type) (K : Ops F) (m p q1 q2 k : nat) (fl : sflags) (ps : nat -> sparams)
+  (ops : list (guard * sop * sparam)) (Vp T Cm : mat) (nrm : option vec) (I : list nat) (X : mat),
+  (forall i, (i < length I)%nat -> (nth i I O < m)%nat) ->
+  msel_rows K k I (cross_pipeline K m p q1 q2 k fl ps ops Vp T Cm nrm X) =
+  cross_pipeline K (length I) p q1 q2 k fl ps ops Vp T Cm nrm (msel_rows K p I X).
+Proof. exact (@cross_pipeline_subset). Qed.
+Print Assumptions C05_cross_subset.
+
 (* dropping entirely missing samples commutes with concatenation *)
 Theorem C05_drop_missing_concat : forall (A : Type) (valid : A -> bool) (rows1 rows2 : list A),
   filter valid (rows1 ++ rows2) = (filter valid rows1 ++ filter valid rows2)%list.
